@@ -61,7 +61,8 @@ Flatten(ss) == IF Len(ss) = 0 THEN <<>> ELSE Head(ss) \o Flatten(Tail(ss))
 Abs(x) == IF x < 0 THEN -x ELSE x
 CountIn(s, x) == Cardinality({k \in 1..Len(s) : s[k] = x})
 BagEq(a, b) == Len(a) = Len(b) /\ \A x \in Range(a) \cup Range(b) : CountIn(a, x) = CountIn(b, x)
-Perms(S) == {f \in [1..Cardinality(S) -> S] : Range(f) = S}      \* enumerations of a small set
+RECURSIVE Perms(_)                                                 \* enumerations of a small set
+Perms(S) == IF S = {} THEN {<<>>} ELSE UNION {{<<x>> \o q : q \in Perms(S \ {x})} : x \in S}
 Pick(ss, S) == LET o == SortSet(S) IN [k \in 1..Len(o) |-> ss[o[k]]]   \* sub-sequence at index set S
 Prefix(s, n) == [k \in 1..n |-> s[k]]
 Min2(a, b) == IF a <= b THEN a ELSE b
@@ -148,13 +149,20 @@ AllMatch(c, T, chs, PS) ==
 
 \* ------------------------------------------------- which faces must survive
 KeptByVertices(c, K) == SortSet({t \in FaceIds(c) : Range(Fc(c, t)) \subseteq K})
-SlotClass(c, t) == {u \in FaceIds(c) : Range(Fc(c, u)) = Range(Fc(c, t))}
+\* repeated faces: the same three slots (as a bag), in any corner order
+SlotClass(c, t) == {u \in FaceIds(c) : Sort3(Fc(c, u)) = Sort3(Fc(c, t))}
 Entries(c) == [k \in 1..Len(c.seq) |-> MaskSeq(c.seq[k].k, c.seq[k].m)]
 NonEmptyIdx(c) == {k \in 1..Len(c.seq) : Len(Entries(c)[k]) > 0}
 FacesOf(c, ts) == [k \in 1..Len(ts) |-> Fc(c, ts[k])]
 Closed(c, ts) == Len(ts) >= 4 /\ Watertight(FacesOf(c, ts))
 \* hole filling may append faces to a part (documented for repair and for only_watertight)
 ExtraOK(c) == c.op \in {"submesh", "split"} /\ ~c.o.app /\ (c.o.rep \/ c.o.ow)
+
+\* one element out of every set of a family of disjoint sets, in every way
+RECURSIVE Transversals(_)
+Transversals(CS) == IF CS = {} THEN {{}}
+                    ELSE LET C == CHOOSE X \in CS : TRUE
+                         IN UNION {{R \cup {x} : R \in Transversals(CS \ {C})} : x \in C}
 
 \* the acceptable tag assignments, order included
 Exact(c) ==
@@ -164,8 +172,7 @@ Exact(c) ==
       [] c.op = "remove_infinite_values" -> {<<KeptByVertices(c, {s \in Slots(c) : Finite(c, s)})>>}
       [] c.op = "update_faces" -> {<<MaskSeq(c.mk, c.mask)>>}
       [] c.op = "remove_duplicate_faces" ->
-            {<<SortSet(R)>> : R \in {R \in SUBSET FaceIds(c) :
-                                       \A t \in FaceIds(c) : Cardinality(R \cap SlotClass(c, t)) = 1}}
+            {<<SortSet(R)>> : R \in Transversals({SlotClass(c, t) : t \in FaceIds(c)})}
       [] c.op = "remove_degenerate_faces" ->
             LET keep == {t \in FaceIds(c) : ~Degenerate(c, t) /\ ~HasNonFinite(c, t)}
                 free == {t \in FaceIds(c) : ~Degenerate(c, t) /\ HasNonFinite(c, t)}
@@ -178,7 +185,8 @@ Exact(c) ==
                  IN {Pick(E, S) : S \in {S \in SUBSET ne : must \subseteq S}}
       [] c.op = "split" ->
             LET comps == FaceComponents(c.faces) IN
-            IF ~c.o.ow THEN {[k \in 1..Len(f) |-> SortSet(f[k])] : f \in Perms(comps)}
+            IF Cardinality(comps) > 7 THEN {}      \* outside the scope of this reference (RefSane stops the run)
+            ELSE IF ~c.o.ow THEN {[k \in 1..Len(f) |-> SortSet(f[k])] : f \in Perms(comps)}
             ELSE LET cand == {C \in comps : Cardinality(C) >= 4}
                      must == {C \in cand : Closed(c, SortSet(C))}
                  IN UNION {{[k \in 1..Len(f) |-> SortSet(f[k])] : f \in Perms(S)} :
@@ -263,13 +271,13 @@ ExactVertsOK(c, out) ==
     /\ SeqChanOK(out.uv, [k \in 1..Len(ev) |-> c.uvc[ev[k] + 1]])
     /\ SeqChanOK(out.vn, [k \in 1..Len(ev) |-> c.nc[ev[k] + 1]])
 
-\* merge_vertices: no two referenced finite vertices are left with the same key
-PostVKey(c, out, v) == <<PK(c, out.ppos[v + 1]),
-                         IF UvActive(c) /\ out.uv.has THEN UK(c, out.uv.v[v + 1]) ELSE 0,
-                         IF NrmActive(c) /\ out.vn.has THEN NK(c, out.vn.v[v + 1]) ELSE 0>>
+\* merge_vertices: no two referenced finite vertices are left whose data come from slots with the same
+\* key (position, and uv / normal class where the options keep those apart); judged through the vertex
+\* attribute, which names the slot a surviving vertex was copied from
 MergeComplete(c, out) ==
+    ~out.va.has \/
     LET ref == {v \in UNION {Range(out.faces[k]) : k \in 1..Len(out.faces)} : out.ppos[v + 1] # 0}
-    IN \A a, b \in ref : a = b \/ PostVKey(c, out, a) # PostVKey(c, out, b)
+    IN \A a, b \in ref : a = b \/ Key(c, out.va.v[a + 1]) # Key(c, out.va.v[b + 1])
 
 \* unmerge_vertices: every face gets three private vertices and nothing else is left
 UnmergePrivate(c, out) ==
